@@ -15,6 +15,7 @@ fn item_src(it: &Value, derive: &str) -> String {
         "false" => format!("{} = false", n),
         "str" => format!("{} = \"x::y\"", n),
         "rule" => format!("{} = \"camelCase\"", n),
+        "preds" => format!("{} = \"T: Clone, U: 'static\"", n),
         "path" => format!("{} = a::b", n),
         "closure" => format!("{} = |x| x", n),
         "words" => format!("{}(a, b)", n),
@@ -238,10 +239,10 @@ const FIELD_ALPHA: [(&str, &str); 23] = [
 const VARIANT_ALPHA: [(&str, &str); 12] = [
     ("rename", "str"), ("rename", "true"), ("skip", "word"), ("skip", "false"), ("word", "word"), ("word", "false"), ("word", "str"), ("bogus", "str"), ("@bare", ""), ("@nv", ""), ("@lit", ""), ("@junk", ""),
 ];
-const CONT_ALPHA: [(&str, &str); 28] = [
+const CONT_ALPHA: [(&str, &str); 30] = [
     ("default", "word"), ("default", "words"), ("rename_all", "rule"), ("rename_all", "str"), ("map", "str"), ("and_then", "str"), ("allow_unknown_fields", "word"),
     ("allow_unknown_fields", "str"), ("attributes", "words"), ("attributes", "str"), ("forward_attrs", "word"), ("forward_attrs", "words"), ("from_ident", "word"),
-    ("from_word", "path"), ("from_word", "str"), ("from_none", "closure"), ("supports", "shapes"), ("supports", "badshape"), ("supports", "dblprefix"), ("supports", "anybad"), ("::map", "str"), ("::default", "word"), ("bogus", "words"),
+    ("from_word", "path"), ("from_word", "str"), ("from_none", "closure"), ("supports", "shapes"), ("supports", "badshape"), ("supports", "dblprefix"), ("supports", "anybad"), ("bound", "preds"), ("bound", "str"), ("::map", "str"), ("::default", "word"), ("bogus", "words"),
     ("bogus", "word"), ("@bare", ""), ("@nv", ""), ("@lit", ""), ("@junk", ""),
 ];
 
